@@ -45,6 +45,11 @@ SPECS = {
     "chic0_kstkst_hel": ("chi(c0)(1P)", ["K+", "pi-", "K-", "pi+"], ["K*(892)0", "K*(892)~0"], ["strong"], "helicity"),
     "chic0_omegaomega_hel": ("chi(c0)(1P)", ["pi0", "gamma", "pi0", "gamma"], ["omega(782)"], ["EM", "strong"], "helicity"),
     "jpsi_gkk_hel": (("J/psi(1S)", [-1, 1]), ["gamma", "K+", "K-"], ["f(2)(1270)", "f(0)(1500)"], ["strong", "EM"], "helicity"),
+    # parity-conserving node decaying to two IDENTICAL spin-1 particles with unequal helicities, eta = -1 (C03)
+    "eta2_rhorho_hel": (("eta(2)(1645)", [-1, 1]), ["rho(770)0", "rho(770)0"], None, ["strong"], "helicity"),
+    "eta2_rhorho_can": (("eta(2)(1645)", [-1, 1]), ["rho(770)0", "rho(770)0"], None, ["strong"], "canonical-helicity"),
+    "jpsi_geta2_rhorho_hel": (("J/psi(1S)", [1]), [("gamma", [1]), "rho(770)0", "rho(770)0"], ["eta(2)(1645)"], ["strong", "EM"], "helicity"),
+    "jpsi_geta2_rhorho_can": (("J/psi(1S)", [1]), [("gamma", [1]), "rho(770)0", "rho(770)0"], ["eta(2)(1645)"], ["strong", "EM"], "canonical-helicity"),
 }
 
 
